@@ -29,7 +29,7 @@ def make_leaf(shape, offset, seed, rest):
             v = v.astype(o[1])
     if "F" in [o for o in rest if isinstance(o, str)]:
         v = np.asfortranarray(v)
-    return v
+    return np.array(v, copy=True, order="K")  # owns its memory
 
 
 def leaf_values(shape, offset, seed=0):
@@ -353,6 +353,9 @@ class Model:
     def _null_grad(self, name):
         pass
 
+    def _peek(self, name):
+        pass
+
     def _del(self, name):
         self.order.remove(name)
         for d in (self.a, self.tag, self.const, self.created):
@@ -385,7 +388,12 @@ class Impl:
         self.t = {}
         self.order = []
         for name, shape, offset, const, *rest in init:
-            self.t[name] = mg.tensor(make_leaf(shape, offset, seed, rest), constant=const)
+            arr = make_leaf(shape, offset, seed, rest)
+            if "ro" in [o for o in rest if isinstance(o, str)]:
+                arr.flags.writeable = False  # natively read-only memory, wrapped without copying
+                self.t[name] = mg.tensor(arr, constant=const, copy=False)
+            else:
+                self.t[name] = mg.tensor(arr, constant=const)
             self.order.append(name)
 
     def value_of(self, val):
@@ -473,6 +481,10 @@ class Impl:
     def _null_grad(self, name):
         self.t[name].null_grad()
 
+    def _peek(self, name):
+        """re-use through a view that is dropped at once"""
+        self.t[name][:1]
+
 
 # ------------------------------------------------------------------ rendering histories as scripts
 def render_val(val):
@@ -513,6 +525,8 @@ def render(st):
         return "%s.clear_graph()" % st[1]
     if k == "null_grad":
         return "%s.null_grad()" % st[1]
+    if k == "peek":
+        return "%s[:1]  # a view, dropped at once" % st[1]
     return repr(st)
 
 
@@ -571,7 +585,7 @@ def uses(st):
     elif k == "out":
         u.append(st[1])
         u += [v[1] for v in (st[3], st[4]) if v[0] == "t"]
-    elif k in ("setshape", "del", "backward", "clear", "null_grad", "reuse", "fail"):
+    elif k in ("setshape", "del", "backward", "clear", "null_grad", "reuse", "fail", "peek"):
         u.append(st[1])
     return u
 
